@@ -140,6 +140,10 @@ Definition errs_roundtrip_b (t : str) (e : list err) : bool :=
 Definition observed_loc_ok_b (t : str) (off : Z) (lc : Z * Z) : bool :=
   loc_inside_b t lc && (offset_of t lc =? off).
 
+(* the line in terms of BYTES: 1 + the number of bytes '\n' among the first off bytes *)
+Definition byte_line (t : str) (off : Z) : Z :=
+  1 + Z.of_nat (length (filter (fun b => b =? 10) (firstn (Z.to_nat off) t))).
+
 (* the column a byte-counting Location() would print (the seeded change of round 7):
    1 + number of BYTES since the last newline; used only in examples *)
 Definition byte_col (t : str) (off : Z) : Z :=
